@@ -44,7 +44,7 @@ Rt0(cfg) == [k \in 1..cfg.K |-> [n \in 1..cfg.N |-> 0]]
 CmpFields == {"now", "created", "accepted", "completed", "nexit", "arr", "and", "ann", "anc",
               "exit", "recs", "ev", "unchecked", "steps"}
 NodeFields == {"c", "cap", "q", "count", "insvc", "srv", "hid", "bq", "lbq", "intr", "nintr",
-               "ned", "net", "nei", "shd", "shc", "ot", "nccd", "ncci", "psocc"}
+               "ned", "net", "nei", "shd", "shc", "shi", "ot", "nccd", "ncci", "psocc"}
 
 DiffOf(T, post) ==
     {f \in CmpFields : T[f] # post[f]}
